@@ -357,7 +357,7 @@ func scribbleTxn(t *types.V2Transaction) {
 func menu(w *chain.World) []chain.Action {
 	return []chain.Action{
 		chain.V1Pay(true, 2), chain.V1Chain(), chain.V1SF(true), chain.V1Form(1, 2, 100), chain.V1Revise("pay"), chain.V1Proof(false),
-		chain.V2Pay(chain.AddrV2, true, 2), chain.V2Chain(chain.AddrV2), chain.V2SF(true), chain.V2Form(1, 2, 100), chain.V2Form(0, 1, 10), chain.V2Revise("pay"), chain.V2Renew("partial"), chain.V2Proof(), chain.V2Expire(), chain.V2Attest(),
+		chain.V2Pay(chain.AddrV2, true, 2), chain.V2Pay(chain.AddrThresh, true, 2), chain.V2Chain(chain.AddrV2), chain.V2SF(true), chain.V2Form(1, 2, 100), chain.V2Form(0, 1, 10), chain.V2Revise("pay"), chain.V2Renew("partial"), chain.V2Proof(), chain.V2Expire(), chain.V2Attest(),
 		chain.MixedChain(), // a v2 transaction spending what a v1 transaction of the same block created
 		// same-block interactions (several MidState code paths per element): the purity bundle incl. the decode(encode()) copy runs on them too
 		chain.Seq("v1revise-twice", chain.V1Revise("pay"), chain.V1Revise("grow")), chain.Seq("v1revise+proof", chain.V1Revise("pay"), chain.V1Proof(false)), chain.Seq("v1form+revise", chain.V1Form(1, 2, 100), chain.V1Revise("pay")),
@@ -420,6 +420,8 @@ func buildShapes(c *vf.Ctx, keys *chain.Keys) []shape {
 		[]chain.Action{chain.V2Proof(), chain.V2Revise("pay"), chain.V2Pay(chain.AddrV2, true, 2)})
 	mk("mixed", "mixed v1+v2 block", [][]chain.Action{nil, nil, nil, {chain.V2Form(2, 2, 100)}},
 		[]chain.Action{chain.V1Pay(true, 2), chain.V2Revise("pay"), chain.V2SF(true)})
+	mk("v2-only", "v2 block spending a threshold-policy output and a legacy unlock-conditions output", nil,
+		[]chain.Action{chain.V2Pay(chain.AddrThresh, true, 2), chain.V2Pay(chain.AddrV1, false, 1)})
 	return out
 }
 
